@@ -48,6 +48,8 @@ type rtCheck struct {
 	// driven in addition to the check's own designs; StreamPerMethod the cases per streaming method.
 	StreamSpecs     [2]int
 	StreamPerMethod [2]int
+	// Unions lets a share of the check's designs carry OneOf attributes in request/response bodies (gen/union.go).
+	Unions bool
 }
 
 type rtWitness struct {
@@ -153,7 +155,7 @@ func runRuntime(c *rtCheck) {
 		var specs []*spec.Spec
 		for i := 0; i < n; i++ {
 			prof := c.Profiles[(idx+i)%len(c.Profiles)]
-			s := gen.Generate(run.Rand(2, uint64(idx+i)), fmt.Sprintf("%d", idx+i), gen.Opts{Profile: prof, Runtime: true, Thorough: run.Thorough(), Files: c.AllowFiles, Streams: c.Streams})
+			s := gen.Generate(run.Rand(2, uint64(idx+i)), fmt.Sprintf("%d", idx+i), gen.Opts{Profile: prof, Runtime: true, Thorough: run.Thorough(), Files: c.AllowFiles, Streams: c.Streams, Unions: c.Unions})
 			s.AddFeature("profile-" + prof)
 			specs = append(specs, s)
 		}
